@@ -99,7 +99,7 @@ claimed["C15"] = dict(
 claimed["C01"] = dict(
    text="Thin claim: a static sibling cross-check of the three block-application implementations decides three clauses necessary for equal roots — delete phase "
         "dominates add phase, the older root is the left hash input and the incoming node the right one, and merging is guarded by the root not being empty; and where the map forest moves a node (delete at the old position, put at the new one: growth, "
-        "move-up, undo) the put happens on every path that deletes, empty roots included. Root equality over all histories (position arithmetic, deletion, TotalRows) is not decided.",
+        "move-up, undo) the put happens on every path that deletes, empty roots included; and the map forest's growth step (sized for one more leaf) is reached on every iteration of the loop over the added leaves. Root equality over all histories (position arithmetic, deletion, TotalRows) is not decided.",
    ref="DESIGN.md 5/C01, engine E2",
    technique="static sibling-agreement cross-check: dominance, data-dependence classification of hash inputs and guard rules on go/ssa (custom analyzer)")
 
